@@ -127,6 +127,15 @@ def run(ctx, F):
     ctx.judge(bool(e_open), "C15.open-condition", "a closed bucket is never considered drained", expected="is_empty() consulted only when is_open()", found="no such guard",
               where=where(fd), key="C15.open-condition|closed-not-drained")
 
+    # a pending sentinel is work of an earlier (open) bucket: it is turned into a packet before any later bucket may open
+    ff = F.fn("scheduler::scheduler::GCWorkScheduler::find_more_work_for_workers")
+    sch = live_calls(ff, name="schedule_sentinels")
+    upd = live_calls(ff, name="update_buckets")
+    oko = len(sch) == 1 and len(upd) == 1 and ff.cfg.dominates(sch[0].bb, upd[0].bb) and bool(guard_find(ff, upd[0].bb, r"schedule_sentinels", False))
+    ctx.judge(oko, "C15.open-condition", "later buckets are considered only when no open bucket has a pending sentinel",
+              expected="schedule_sentinels() evaluated first; update_buckets() only when it returned false (an earlier bucket with a sentinel is not empty)",
+              found="guards of update_buckets: %s" % (guard_strs(ff, upd[0].bb) if upd else "missing"), where=where(ff), key="C15.open-condition|sentinel-first")
+
     # ---- C15.close-at-end
     closes = check_callers(ctx, F, "C15.close-at-end", WB + "close", {
         SCHED + "close_all_stw_buckets::{closure#0}": "end of GC",
